@@ -110,6 +110,99 @@ example : omap rrView ((genDNSEntry_DecodeAnswers (fun _ => []) {}
 example : (genDNSEntry_DecodeAnswers (fun _ => []) { Name := [97] } [0, 0, 0] 12 []).run {} = ({ Name := [97] }, .err .frameLen) := by
   decide
 
+/-! ### the hypothesis on `parseIP` is satisfiable: the model's own text parser -/
+
+/-- every field the model's dotted-quad parser returns is an octet -/
+theorem ip4Fields_le : ∀ (s : Bytes) (pd first : Bool) (fields : List Nat) (val dl : Nat) (r : List Nat),
+    (∀ x ∈ fields, x ≤ 255) → val ≤ 255 → ip4Fields s pd first fields val dl = some r → ∀ x ∈ r, x ≤ 255 := by
+  intro s
+  induction s with
+  | nil =>
+    intro pd first fields val dl r hf hv h
+    unfold ip4Fields at h
+    split at h
+    · cases h
+      intro x hx
+      rcases List.mem_append.mp hx with h1 | h1
+      · exact hf x h1
+      · simp only [List.mem_singleton] at h1; omega
+    · cases h
+  | cons c rest ih =>
+    intro pd first fields val dl r hf hv h
+    unfold ip4Fields at h
+    split at h
+    · split at h
+      · cases h
+      · simp only [] at h
+        split at h
+        · cases h
+        · exact ih _ _ _ _ _ r hf (by omega) h
+    · split at h
+      · split at h
+        · cases h
+        · split at h
+          · cases h
+          · refine ih _ _ _ _ _ r ?_ (by omega) h
+            intro x hx
+            rcases List.mem_append.mp hx with h1 | h1
+            · exact hf x h1
+            · simp only [List.mem_singleton] at h1; omega
+      · cases h
+
+/-- `net.ParseIP` as the model has it: the dotted-quad parser for texts whose first special character is '.', any
+    function `p6` for texts that go to the IPv6 parser, nil otherwise -/
+def refParseIP (p6 : Bytes → Bytes) (s : Bytes) : Bytes :=
+  match firstSpecial s with
+  | some 46 =>
+    match parseIP4Text s with
+    | some [a, b, c, d] => [UInt8.ofNat a, UInt8.ofNat b, UInt8.ofNat c, UInt8.ofNat d]
+    | _ => []
+  | some 58 => p6 s
+  | _ => []
+
+/-- the hypothesis `hP` of the ties holds for it, whatever the IPv6 text parser is: the ties are not vacuous, and with
+    `parseIP := refParseIP p6` they are unconditional statements about the regenerated decoder -/
+theorem refParseIP_hP (p6 : Bytes → Bytes) (s : Bytes) :
+    ptrView (refParseIP p6 s) = parsePtrIP (fun s => ptrView (p6 s)) s := by
+  unfold refParseIP parsePtrIP
+  split
+  · rename_i hfs
+    simp only [hfs]
+    cases h4 : parseIP4Text s with
+    | none => simp [ptrView]
+    | some l =>
+      match l, h4 with
+      | [a, b, c, d], h4 =>
+        have hle := ip4Fields_le s false true [] 0 0 [a, b, c, d] (fun _ h => by cases h) (by omega) h4
+        have ha := hle a (by simp)
+        have hb := hle b (by simp)
+        have hc := hle c (by simp)
+        have hd := hle d (by simp)
+        have e : ∀ x : Nat, x ≤ 255 → (UInt8.ofNat x).toNat = x := by
+          intro x hx; simp [UInt8.toNat_ofNat']; omega
+        simp [ptrView, ipTo4, e a ha, e b hb, e c hc, e d hd]
+      | [], _ => simp [ptrView]
+      | [_], _ => simp [ptrView]
+      | [_, _], _ => simp [ptrView]
+      | [_, _, _], _ => simp [ptrView]
+      | _ :: _ :: _ :: _ :: _ :: _, _ => simp [ptrView]
+  · rename_i hfs
+    simp only [hfs]
+  · rename_i h1 h2
+    split
+    · rename_i hfs; exact absurd hfs (h1)
+    · rename_i hfs; exact absurd hfs (h2)
+    · simp [ptrView]
+
+/-- **DecodeAnswers tie, unconditional form**: with `net.ParseIP` as the model has it (`refParseIP`, any IPv6 text
+    parser `p6`) no hypothesis on the parser is left -/
+theorem decodeAnswers_tie_ref (p6 : Bytes → Bytes) (e : GDNSEntry) (hk : EntryKeyed e) (p : Bytes) (offset : Int) (buffer : Bytes)
+    (s0 : GDNSEntry) :
+    (entryView ((genDNSEntry_DecodeAnswers (refParseIP p6) e p offset buffer).run s0).1,
+      omap rrView ((genDNSEntry_DecodeAnswers (refParseIP p6) e p offset buffer).run s0).2)
+      = Model.decodeAnswers (fun s => ptrView (p6 s)) (entryView e) p offset :=
+  (decodeAnswers_tie (refParseIP p6) (fun s => ptrView (p6 s)) (refParseIP_hP p6) e hk p offset buffer s0).1
+
 /-- the zero entry (nil maps) is keyed: the ties apply to a fresh `DNSEntry{}` as ProcessDNS builds it -/
 theorem entryKeyed_zero (n : Bytes) : EntryKeyed { Name := n } := by
   constructor <;> (intro l h; cases h)
